@@ -60,6 +60,10 @@ pub struct DevCfg {
     /// stream that is not at its start (a cursor that was used before); writers only
     #[serde(default)]
     pub start: u32,
+    /// bytes of older content (0xEE) the destination already holds when the writer is given it (a
+    /// reused in-memory buffer cannot be truncated by the writer: only differential oracles apply)
+    #[serde(default)]
+    pub prefill: u32,
 }
 
 #[derive(Clone, Debug, Default, Serialize, Deserialize)]
@@ -127,11 +131,12 @@ pub type WorldRef = Rc<RefCell<World>>;
 
 impl World {
     pub fn new(plan: Plan) -> WorldRef {
+        let pre = |i: usize| vec![0xEEu8; plan.dev[i].prefill as usize];
         Rc::new(RefCell::new(World {
             devices: [
-                Device { data: Vec::new(), ops: 0, chunk_i: 0 },
-                Device { data: Vec::new(), ops: 0, chunk_i: 0 },
-                Device { data: Vec::new(), ops: 0, chunk_i: 0 },
+                Device { data: pre(0), ops: 0, chunk_i: 0 },
+                Device { data: pre(1), ops: 0, chunk_i: 0 },
+                Device { data: pre(2), ops: 0, chunk_i: 0 },
             ],
             log: Vec::new(),
             blob: Vec::new(),
